@@ -98,6 +98,16 @@ class DDPDistributor(DistributorInterface):
         )
         group_rank: int = dist.get_rank(group=self._dist_group)
 
+        # Creating a device mesh creates process groups, which must happen on all ranks in the same order.
+        # Instantiate (and cache) the device mesh of every group rank here instead of lazily on its owner only.
+        for group_source_rank in range(self._group_size):
+            get_device_mesh(
+                device_type=self._global_blocked_params[0].device.type,
+                mesh=tuple(
+                    range(group_source_rank, self._global_size, self._group_size)
+                ),
+            )
+
         # Assign ranks to blocks with their respective buffer size.
         buffer_size_ranks = self._distribute_buffer_sizes(
             buffer_sizes=tuple(
